@@ -4,6 +4,7 @@ import (
 	"time"
 
 	"github.com/karagenc/socket.io-go/internal/sync"
+	"github.com/karagenc/socket.io-go/internal/verifhook"
 
 	"github.com/karagenc/socket.io-go/engine.io/parser"
 )
@@ -28,6 +29,7 @@ func (pq *pollQueue) poll(pollTimeout time.Duration) []*parser.Packet {
 	if len(packets) > 0 {
 		return packets
 	}
+	verifhook.Hit("pollQueue.poll:between-check-and-wait")
 
 	select {
 	case <-pq.ready:
